@@ -54,6 +54,7 @@ type Contract struct {
 	KeepPre   bool // with nosafety: callee preconditions are still checked
 	AllocBound string
 	InlineDepth int
+	InlineCalls []string // callees (name suffixes) executed by their bodies although they have a contract
 	HasMod    bool
 	MaybeNil  map[string]bool
 	Inline    bool
@@ -172,6 +173,10 @@ func ParseContractFile(path, pkgPath string) ([]*Contract, error) {
 			cur.NoSafety = true
 			if strings.TrimSpace(p.text) == "keep-pre" {
 				cur.KeepPre = true
+			}
+		case "inline-calls":
+			for _, n := range strings.Fields(strings.ReplaceAll(p.text, ",", " ")) {
+				cur.InlineCalls = append(cur.InlineCalls, n)
 			}
 		case "inline-depth":
 			n, err := strconv.Atoi(strings.TrimSpace(p.text))
